@@ -141,6 +141,9 @@ func vfScoreHistory(t *testing.T, rng *rand.Rand, nops int, style int) (lit stri
 		partial := rng.Intn(3) == 0
 		params := &PeerScoreParams{SkipAtomicValidation: partial, Topics: map[string]*TopicScoreParams{}}
 		ntopics := 1 + rng.Intn(2)
+		if style == 3 {
+			ntopics = 2
+		}
 		for i := 0; i < ntopics; i++ {
 			params.Topics[vfTopic(i)] = vfGenTopicParams(rng, partial)
 		}
@@ -162,6 +165,24 @@ func vfScoreHistory(t *testing.T, rng *rand.Rand, nops int, style int) (lit stri
 			for _, tp := range params.Topics {
 				tp.SkipAtomicValidation = true
 				tp.TimeInMeshWeight, tp.TimeInMeshQuantum, tp.TimeInMeshCap = 0, 0, 0
+			}
+		}
+		if style == 3 {
+			// two scored topics whose positive contributions add up beyond a small topic score cap (the cap bounds the SUM)
+			params.TopicScoreCap = vfPick(rng, 1.5, 2.25)
+			for _, tp := range params.Topics {
+				tp.TopicWeight = vfPick(rng, 1, 0.5)
+				tp.FirstMessageDeliveriesWeight, tp.FirstMessageDeliveriesDecay, tp.FirstMessageDeliveriesCap = 1, 0.9, 10
+			}
+		}
+		if style == 4 {
+			// the sticky mesh-failure penalty: the delivery requirement becomes active while the peer is in the mesh and is unmet
+			// when the peer is pruned, and, later, when it disconnects
+			for _, tp := range params.Topics {
+				tp.TopicWeight = 1
+				tp.MeshMessageDeliveriesWeight, tp.MeshMessageDeliveriesDecay, tp.MeshMessageDeliveriesCap = -1, 0.9, 10
+				tp.MeshMessageDeliveriesThreshold, tp.MeshMessageDeliveriesWindow, tp.MeshMessageDeliveriesActivation = 2, time.Second, time.Second
+				tp.MeshFailurePenaltyWeight, tp.MeshFailurePenaltyDecay = -1, 0.9
 			}
 		}
 		if style == 2 {
@@ -213,6 +234,40 @@ func vfScoreHistory(t *testing.T, rng *rand.Rand, nops int, style int) (lit stri
 					panicked = fmt.Sprint(r)
 				}
 			}()
+			if style == 4 {
+				for p := 0; p < 2; p++ {
+					n.ps.OnNewOutboundStream(pids[p], GossipSubID_v11)
+					emit(fmt.Sprintf("fAddPeer %d", p))
+					n.ps.Graft(pids[p], vfTopic(0))
+					emit(fmt.Sprintf("fGraft %d 0", p))
+				}
+				time.Sleep(2500 * time.Millisecond)
+				emit(fmt.Sprintf("fAdvance %s", vfZ(int64(2500*time.Millisecond))))
+				n.ps.refreshScores()
+				emit("fRefresh")
+				// peer 0 is pruned and then disconnects; peer 1 disconnects while still in the mesh
+				n.ps.Prune(pids[0], vfTopic(0))
+				emit("fPrune 0 0")
+				for p := 0; p < 2; p++ {
+					app := n.app[pids[p]]
+					n.ps.OnClosedOutboundStream(pids[p])
+					emit(fmt.Sprintf("fRemovePeer %d %s", p, vfF(app)))
+				}
+			}
+			if style == 3 {
+				// one peer delivers first on both topics
+				n.ps.OnNewOutboundStream(pids[0], GossipSubID_v11)
+				emit("fAddPeer 0")
+				for k := 0; k < 4; k++ {
+					id := nextMsg
+					nextMsg++
+					live = append(live, id)
+					n.ps.ValidateMessage(mkMsg(id, 0, k%2))
+					emit(fmt.Sprintf("fValidate %d", id))
+					n.ps.DeliverMessage(mkMsg(id, 0, k%2))
+					emit(fmt.Sprintf("fDeliver %d %d %d", id, 0, k%2))
+				}
+			}
 			for k := 0; k < nops; k++ {
 				// application scores drift
 				if rng.Intn(5) == 0 {
@@ -352,6 +407,12 @@ func TestVF_Score(t *testing.T) {
 		}
 		if c%25 == 13 {
 			style = 2
+		}
+		if c%10 == 4 {
+			style = 3
+		}
+		if c%10 == 6 {
+			style = 4
 		}
 		lit, rec, nt, pan := vfScoreHistory(t, rng, 40+rng.Intn(80), style)
 		if pan != "" && viol == nil {
